@@ -840,6 +840,44 @@ fn merge_function(orig_module: &mut Module, merge_module: &mut Module) {
                     }
                     _ => {}
                 }
+
+                // merge the DEF_CHARACTERISTIC
+                match (
+                    &mut orig_function.def_characteristic,
+                    function.def_characteristic,
+                ) {
+                    (Some(orig_def_characteristic), Some(merge_def_characteristic)) => {
+                        for item in merge_def_characteristic.identifier_list {
+                            if !orig_def_characteristic.identifier_list.contains(&item) {
+                                orig_def_characteristic.identifier_list.push(item);
+                            }
+                        }
+                    }
+                    (None, Some(merge_def_characteristic)) => {
+                        // the original function has no def_characteristic, but the merge function has one
+                        orig_function.def_characteristic = Some(merge_def_characteristic);
+                    }
+                    _ => {}
+                }
+
+                // merge the REF_CHARACTERISTIC
+                match (
+                    &mut orig_function.ref_characteristic,
+                    function.ref_characteristic,
+                ) {
+                    (Some(orig_ref_characteristic), Some(merge_ref_characteristic)) => {
+                        for item in merge_ref_characteristic.identifier_list {
+                            if !orig_ref_characteristic.identifier_list.contains(&item) {
+                                orig_ref_characteristic.identifier_list.push(item);
+                            }
+                        }
+                    }
+                    (None, Some(merge_ref_characteristic)) => {
+                        // the original function has no ref_characteristic, but the merge function has one
+                        orig_function.ref_characteristic = Some(merge_ref_characteristic);
+                    }
+                    _ => {}
+                }
             }
         } else {
             // no function with this name exists in the original module
